@@ -104,7 +104,7 @@ func generalPlan(tier string, faults bool) []PlanItem {
 		items = append(items, PlanItem{scnRestart("restart/"+stopName(sv)+"-K1", K1, sv), d})
 	}
 	items = append(items,
-		PlanItem{scnRestartFollower("restart-follower/stop-K1", K1, Item{Do: "stop"}), d},
+		PlanItem{scnRestartFollower("restart-follower/stop-K1", K1, Item{Do: "stop"}), d + 1},
 		PlanItem{scnRestart2("restart2/stop-then-stopdel-K1", K1, Item{Do: "stop"}), d},
 		PlanItem{scnRestart2("restart2/stopctx-then-stopdel-K1", K1, Item{Do: "stopctx"}), d},
 		PlanItem{dropAll(scnRestart2("restart2/stop-then-stopdel-K1-dropall", K1, Item{Do: "stop"})), d})
